@@ -86,6 +86,7 @@ Scenario gen_scenario(Rng &r, ScenOpts const &o) {
     if (r.chance(0.3)) cv.extra += "  outputAppliedForce on\n";
     if (need_tf[(size_t)i] && r.chance(0.5)) cv.extra += "  outputTotalForce on\n";
     if (r.chance(0.2)) cv.extra += "  outputVelocity on\n";
+    if (o.p_subtract > 0 && need_tf[(size_t)i] && cv.extra.find("extendedLagrangian") == std::string::npos && r.chance(o.p_subtract)) cv.extra += "  subtractAppliedForce on\n";
     if (o.allow_mts && r.chance(0.02)) cv.extra += "  timeStepFactor " + std::to_string(r.range(2, 3)) + "\n";
   }
   s.config = global_config(o.traj_freq, o.restart_freq, o.smp);
